@@ -217,6 +217,10 @@ func checkC03(P *Prog, r *Result) {
 	// the record the fields are read from is the input: a map of a named type that failed the plain-map assertion is
 	// converted, not replaced by the assertion's zero value (C14's rule) - else every leaf stays untouched, silently
 	shareRule(P, r, checkC14, "C14/provider-from-checked-value", nil, "C03/input-record-not-dropped", 1)
+	// "destination fields the schema does not name are never written": the field map of a schema is the one its author
+	// declared - a derivation that writes into its receiver's map (Merge on top of a shallow clone) gives the base the
+	// other operand's fields, and the base then writes them (C16's rule)
+	shareRule(P, r, checkC16, "C16/operands-read-only", nil, "C03/schema-fields-as-declared", 2)
 	// with no issues reported a leaf holds the coercion of *its* input: a catch value replaces it only when that
 	// node itself failed, never because Exit / CanCatch were left set by a sibling or an earlier element (C05's rule)
 	shareRule(P, r, checkC05, "C05/confinement", nil, "C03/catch-value-only-on-own-failure", 10)
